@@ -179,11 +179,13 @@ package fit
 
 //@ func noEOF(err error) (r error)
 //@   props C01 C11
+//@   ensures [not-clean-eof] !iserr(err, errReadSize) ==> !iserr(r, errReadSize)
 //@   ensures [nonnil] (r == nil) <==> (err == nil)
 //@   assigns nothing
 
 //@ func (d *decoder) fill() (err error)
 //@   props C01 C10 C11
+//@   ensures [not-clean-eof] !iserr(err, errReadSize)
 //@   requires [empty] d.bytes.i == d.bytes.j
 //@   requires inv_bytes(d) && inv_io(d)
 //@   ensures [inv] inv_bytes(d) && inv_io(d)
@@ -196,6 +198,7 @@ package fit
 
 //@ func (d *decoder) readByte() (b byte, err error)
 //@   props C01 C10 C11
+//@   ensures [not-clean-eof] !iserr(err, errReadSize)
 //@   requires inv_bytes(d) && inv_io(d)
 //@   ensures [inv] inv_bytes(d) && inv_io(d)
 //@   ensures [consumed] err == nil ==> d.bytes.n == old(d.bytes.n)+1
@@ -209,6 +212,7 @@ package fit
 
 //@ func (d *decoder) skipByte() (err error)
 //@   props C01 C10 C11
+//@   ensures [not-clean-eof] !iserr(err, errReadSize)
 //@   requires inv_bytes(d) && inv_io(d)
 //@   ensures [inv] inv_bytes(d) && inv_io(d)
 //@   ensures [consumed] err == nil ==> d.bytes.n == old(d.bytes.n)+1
@@ -222,6 +226,7 @@ package fit
 
 //@ func (d *decoder) readFull(p []byte) (err error)
 //@   props C01 C10 C11
+//@   ensures [not-clean-eof] !iserr(err, errReadSize)
 //@   locals n int
 //@   requires inv_bytes(d) && inv_io(d)
 //@   ensures [inv] inv_bytes(d) && inv_io(d)
@@ -302,6 +307,7 @@ package fit
 
 //@ func (d *decoder) validateFieldDef(gmsgnum MesgNum, dfield fieldDef) (err error)
 //@   props C01
+//@   ensures [not-clean-eof] !iserr(err, errReadSize)
 //@   split profile gmsgnum dfield.num
 //@   reveal compat, tables
 //@   ensures [compat] err == nil ==> compat(gmsgnum, dfield)
@@ -335,6 +341,7 @@ package fit
 
 //@ func (d *decoder) parseDefinitionMessage(recordHeader byte) (res *defmsg, err error)
 //@   props C01 C10 C11 C13
+//@   ensures [not-clean-eof] !iserr(err, errReadSize)
 //@   locals rangeindex int, dm *defmsg
 //@   requires inv_bytes(d) && inv_io(d)
 //@   ensures [inv] inv_bytes(d) && inv_io(d)
@@ -416,6 +423,7 @@ package fit
 
 //@ func (d *decoder) parseFitField(dm *defmsg, dfield fieldDef, fieldv reflect.Value) (err error)
 //@   props C01
+//@   ensures [not-clean-eof] !iserr(err, errReadSize)
 //@   locals j int
 //@   requires archOK(dm) && rvmt(fieldv) < 0xFFF0
 //@   requires [scalar] scalarOK(dfield.btype, dfield.size, rvcls(fieldv), rvwid(fieldv))
@@ -425,6 +433,7 @@ package fit
 
 //@ func (d *decoder) parseFitFieldArray(dm *defmsg, dfield fieldDef, fieldv reflect.Value) (err error)
 //@   props C01
+//@   ensures [not-clean-eof] !iserr(err, errReadSize)
 //@   requires archOK(dm) && rvmt(fieldv) < 0xFFF0 && types.KnownIdx(dfield.btype)
 //@   locals j int, k int
 //@   requires [array] arrayOK(dfield.btype, dfield.size, rvcls(fieldv), rvecls(fieldv), rvewid(fieldv), rvttag(fieldv))
@@ -453,6 +462,7 @@ package fit
 
 //@ func (d *decoder) parseDataFields(dm *defmsg, knownMsg bool, msgv reflect.Value) (r reflect.Value, err error)
 //@   props C01 C10 C11
+//@   ensures [not-clean-eof] !iserr(err, errReadSize)
 //@   locals rangeindex int, j int, dsize int, padding int
 //@   reveal compat
 //@   requires dec_inv(d) && wf_defmsg(dm)
@@ -484,6 +494,7 @@ package fit
 
 //@ func (d *decoder) parseDataMessage(recordHeader byte, compressed bool) (r reflect.Value, err error)
 //@   props C01 C10 C11 C13
+//@   ensures [not-clean-eof] !iserr(err, errReadSize)
 //@   reveal compat
 //@   use known_bound(d.defmsgs[slotOf(recordHeader, compressed)].globalMsgNum)
 //@   use timestamp_field(d.defmsgs[slotOf(recordHeader, compressed)].globalMsgNum)
@@ -520,6 +531,7 @@ package fit
 
 //@ func (f *File) init() (err error)
 //@   props C01 C03
+//@   ensures [not-clean-eof] !iserr(err, errReadSize)
 //@   ensures [ready] err == nil ==> file_ready(f) && fresh(f.msgAdder)
 //@   assigns f.msgAdder, f.activity, f.device, f.settings, f.sport, f.workout, f.course, f.schedules, f.weight, f.totals, f.goals, f.bloodPressure, f.monitoringA, f.activitySummary, f.monitoringDaily, f.monitoringB, f.segment, f.segmentList
 
@@ -534,6 +546,7 @@ package fit
 
 //@ func (d *decoder) parseFileIdMsg() (err error)
 //@   props C01 C10 C11 C13
+//@   ensures [not-clean-eof] !iserr(err, errReadSize)
 //@   use fileid_known()
 //@   requires dec_inv(d) && inv_defs(d) && file_inv(d)
 //@   requires [fresh-slots] forall s in 0..16 :: d.defmsgs[s] == nil
@@ -547,6 +560,7 @@ package fit
 
 //@ func (d *decoder) decodeFileData() (err error)
 //@   props C01 C10 C11 C13
+//@   ensures [not-clean-eof] !iserr(err, errReadSize)
 //@   requires dec_inv(d) && inv_defs(d) && file_inv(d) && file_ready(d.file)
 //@   ensures [inv] dec_inv(d) && inv_defs(d) && file_inv(d)
 //@   ensures [step] dec_step(d, old(d.bytes.n), old(d.bytes.limit), old(framepos(d)), old(pos(d.r)))
@@ -562,6 +576,7 @@ package fit
 
 //@ func (d *decoder) checkCRC() (err error)
 //@   props C01 C10 C11 C04
+//@   ensures [not-clean-eof] !iserr(err, errReadSize)
 //@   requires inv_io(d) && file_inv(d)
 //@   ensures [inv] inv_io(d)
 //@   ensures [consumed] err == nil ==> pos(d.r) == old(pos(d.r))+2
@@ -605,9 +620,43 @@ package fit
 //@   ensures [exact-data] err == nil && !headerOnly && !fileIDOnly && !crcOnly ==> d.bytes.n == int(d.h.DataSize) && d.bytes.i == d.bytes.j
 //@   ensures [exact-crconly] err == nil && crcOnly && !headerOnly ==> d.bytes.n == 0 && d.bytes.i == d.bytes.j && pos(r) == old(pos(r))+int(d.h.Size)+int(d.h.DataSize)+2
 //@   ensures [header-only] err == nil && headerOnly ==> pos(r) == old(pos(r))+int(d.h.Size)
+//@   ensures [header-only-bound] headerOnly ==> pos(r) <= old(pos(r))+14
+//@   ensures [size] err == nil ==> d.h.Size == 12 || d.h.Size == 14
 //@   ensures [monotone] pos(r) >= old(pos(r))
 //@   ensures [bounded-frame] (d.h.Size == 12 || d.h.Size == 14) && !crcOnly ==> framepos(d) <= old(pos(r))+int(d.h.Size)+2 && 0 <= d.bytes.n+(d.bytes.j-d.bytes.i) && d.bytes.n+(d.bytes.j-d.bytes.i) <= int(d.h.DataSize)
 //@   ensures [bounded-crconly] (d.h.Size == 12 || d.h.Size == 14) && crcOnly ==> pos(r) <= old(pos(r))+int(d.h.Size)+int(d.h.DataSize)+2
 //@   ensures [bad-header] !(d.h.Size == 12 || d.h.Size == 14) ==> pos(r) <= old(pos(r))+14
 //@   ensures [file] err == nil ==> d.file != nil
+//@   ensures [clean-eof-only] iserr(err, errReadSize) ==> cleanEnd(r, old(pos(r))) && pos(r) == old(pos(r))
+//@   ensures [clean-eof-reported] cleanEnd(r, old(pos(r))) ==> iserr(err, errReadSize)
 //@   assigns allfields(d), pos(r)
+
+//@ func CheckIntegrity(r io.Reader, headerOnly bool) (err error)
+//@   props C01 C10 C11
+//@   requires r != nil
+//@   ensures [monotone] pos(r) >= old(pos(r))
+//@   assigns pos(r)
+
+//@ func DecodeHeader(r io.Reader) (h Header, err error)
+//@   props C01 C10 C11
+//@   requires r != nil
+//@   ensures [consumed] err == nil ==> pos(r) == old(pos(r))+int(h.Size) && (h.Size == 12 || h.Size == 14)
+//@   ensures [bounded] pos(r) >= old(pos(r)) && pos(r) <= old(pos(r))+14
+//@   assigns pos(r)
+
+//@ func DecodeHeaderAndFileID(r io.Reader) (h Header, id FileIdMsg, err error)
+//@   props C01 C10 C11
+//@   requires r != nil
+//@   ensures [monotone] pos(r) >= old(pos(r))
+//@   assigns pos(r)
+
+//@ func Decode(r io.Reader, opts []DecodeOption) (f *File, err error)
+//@   props C01 C10 C11
+//@   locals rangeindex int, d *decoder
+//@   requires r != nil
+//@   ensures [monotone] pos(r) >= old(pos(r))
+//@   ensures [file] err == nil ==> f != nil
+//@   assigns pos(r)
+//@   loop 0 invariant [range] -1 <= rangeindex && rangeindex < len(opts)
+//@   loop 0 invariant [fresh] fresh_decoder(d) && fresh(d) && d != nil && pos(r) == old(pos(r))
+//@   loop 0 decreases len(opts) - rangeindex
